@@ -13,6 +13,8 @@ package c10
 //   by the independent verifier against the block's global state root.
 // Part D (batch_test.go): every sequence of <= L keys proven into ONE node set (what the RPC and GetRangeProof do), every
 //   key of the sequence checked against the shared set after every Prove; GetRangeProof's set establishes both boundaries.
+// Part E (history_test.go): every history of <= D operations {Put, Delete, Commit, (Hash,) Prove} on ONE long-lived trie
+//   object started from every small base state; every Prove checked against the current (reference) root and the model.
 
 // Violation keys seen on the unchanged tree (all reproduced with juno's API alone in repro_test.go, C10_REPRO=1):
 //   rpc-v9|v10 storage-proofs-not-in-request-order      processStorageKeys ranges over a Go map: contracts_storage_proofs[i]
@@ -61,6 +63,11 @@ func TestCheck(t *testing.T) {
 	}
 	r.Set("seconds_batch", time.Since(t0).Seconds())
 	t0 = time.Now()
+	if only == "" || only == "history" {
+		runHistory(r)
+	}
+	r.Set("seconds_history", time.Since(t0).Seconds())
+	t0 = time.Now()
 	if only == "" || only == "member" {
 		runMembership(r)
 	}
@@ -71,6 +78,7 @@ func TestCheck(t *testing.T) {
 		"Pedersen/Poseidon primitives and felt arithmetic are trusted (pinned by juno's known-answer tests)",
 		"juno's VerifyProof/VerifyRangeProof hard-code height 251: height-2/3 tries are checked by them through three order-preserving embeddings into height 251; the native height-2/3 tries are checked by the independent verifier only",
 		"batches (Part D): keys are drawn from the trie's logical universe (all 2^h keys; the 9 crafted keys), sequences of <=L keys with repetition, depth-first with the set cloned at every branch (clones share node objects); juno's VerifyProof runs on the key proven last after every Prove and on every key of the whole-universe and GetRangeProof sets; the empty trie is left to Part A",
+		"histories (Part E): one trie object per history (a trie object cannot be cloned, every history is replayed from its base state, which is put and committed on the same object); core/trie: the root of a trie with pending updates is what Hash returns, so Hash is called right before every Prove (Prove on un-hashed pending updates is not judged); trie2: Prove runs on pending, unhashed updates and is judged against the reference root, Commit = Commit + triedb Update + re-open from the same database object; juno's VerifyProof is skipped on the empty trie (Part A's known finding)",
 		"felt-field alteration alphabet: +1, 0 and every other felt occurring in the proof/root/value; edge path: bit flips at positions {0,1,len/2,len-2,len-1}; edge length: +-1 (both path alignments), 0, 251; node kind flips; removal; pairwise swap",
 	)
 	r.Finish()
